@@ -69,7 +69,7 @@ def get(i):
         # belong to their column's spine like any other cell
         rows.insert(3, ['!lc%d' % j for j in range(len(rows[2]))])
         if rows[-1] and all(c == '*-' for c in rows[-1]):
-            rows.insert(len(rows) - 1, ['!end%d' % j for j in range(len(rows[-1]))])
+            rows.insert(len(rows) - 1, ['!end' if j == 0 else '!' for j in range(len(rows[-1]))])     # text in the first column only, empty local comments elsewhere
         text = sp.to_text(rows)
         model = sp.analyse(rows)
         doc, errs = kp.loads(text)
